@@ -27,6 +27,19 @@ def rewrites(case, data):
             n['indef'] = True
             yield 'indefinite', wire.emit(root), depth
             n['indef'] = False
+        # (a') the indefinite-length octet on a primitive element (never valid, least of all in DER): the contents as
+        # they are, also with the contents re-framed as one or two OCTET STRING fragments, then end-of-octets
+        if not n['cons']:
+            cls_, num_ = n['tag']
+            content_ = n['content']
+            bodies = [content_, wire.emit_ident('u', False, 4) + wire.emit_len(len(content_)) + content_]
+            if len(content_) >= 2:
+                bodies.append(wire.emit_ident('u', False, 4) + b'\x01' + content_[:1] +
+                              wire.emit_ident('u', False, 4) + wire.emit_len(len(content_) - 1) + content_[1:])
+            for body_ in bodies:
+                n['raw'] = wire.emit_ident(cls_, False, num_) + b'\x80' + body_ + b'\x00\x00'
+                yield 'indefinite-primitive', wire.emit(root), depth
+            n['raw'] = None
         b = kind_of.get(id(n))
         is_str = (b is not None and b[0] in ('str', 'bits')) or (b is None and n['tag'][0] == 'u' and n['tag'][1] in STR_NUMS)
         # (b) primitive string -> segmented
